@@ -423,7 +423,7 @@ def run(ctx):
   ctx.count('streams', 'restore', len(restore))
   run_programs(ctx, drv, conv, restore)
   # return shape of every entry point for every kind of filter (incl. falsy-but-not-False ones), output a scalar or a pair
-  return_shape_suite(ctx, 35 if not thorough else 400)
+  return_shape_suite(ctx, 30 if not thorough else 400)
   # nested applies inside a module body, under every outer capture setting
   nested = [S.gen_nested_prog(ctx.rng) for _ in range(60 if not thorough else 700)]
   ctx.count('streams', 'nested', len(nested))
@@ -444,11 +444,11 @@ def run(ctx):
                    'x': ctx.rng.randrange(-2, 3), 'rngs': ctx.rng.random() < 0.6, 'which': ctx.rng.choice(['root', 'child', 'child']),
                    'pick': ctx.rng.randrange(100), 'leak': True, '_rng': ctx.rng})
   leak_suite(ctx, drv, conv, lcases)
-  n = 700 if not thorough else 9000
+  n = 550 if not thorough else 9000
   done = 0
   sample_src = None
   while done < n:
-    if ctx.elapsed() > (70 if not thorough else 1000):
+    if ctx.elapsed() > (60 if not thorough else 1000):
       ctx.notes.append(f'time budget reached after {done} programs')
       break
     batch = [S.gen_prog(ctx.rng) for _ in range(min(60, n - done))]
